@@ -21,7 +21,7 @@ EXPLANATION = (
     "and no name comparison (value slices ignore guards of which only one outcome reaches the access; accesses that can only run "
     "on directed graphs are exempt).  R-C02-4 kind refusals of the query API (table frozen from the statement) guard every "
     "non-error return; every NodeNotFound/EdgeNotFound is conditional on a failed lookup.  R-C02-5 parallel edges are appended "
-    "(push) in both stores and read back in list order.  R-C02-10 in add_edge the position-keyed adjacency sets receive, under the same test of specs.directed, the update the name-keyed ones receive (same endpoint as key and as member).  R-C02-11 a node list taken from the raw traversal rows is de-duplicated on every path that returns it.  R-C02-12: breadth_first_search expands a node through its successors on directed graphs.  NOT decided: that queries return the right sets (value-level)."
+    "(push) in both stores and read back in list order.  R-C02-10 in add_edge the position-keyed adjacency sets receive, under the same test of specs.directed, the update the name-keyed ones receive (same endpoint as key and as member).  R-C02-11 a node list taken from the raw traversal rows is de-duplicated on every path that returns it.  R-C02-12: breadth_first_search expands a node through its successors on directed graphs.  R-C02-4 also ties the error KIND to the store of the failed lookup (NodeNotFound: node stores; EdgeNotFound: edge stores).  NOT decided: that queries return the right sets (value-level)."
 )
 TRUSTED = ["rustc MIR construction and privacy checking", "std HashMap/Vec semantics", "over-approximated dependence (absence of dependence is definite)"]
 
@@ -384,6 +384,31 @@ def rule4(ctx, prog, flows):
                         if any(n_[0] == "CALL" and b.blocks[n_[1]].term.callee and b.blocks[n_[1]].term.callee.short.split("::")[-1] in ("contains_key", "has_node", "has_nodes", "get", "get_node", "get_node_index") for n_ in sl_):
                             ok = True
             ctx.require(ok, "R-C02-4", "notfound|%s|%s" % (b.short, v), "%s in %s is conditional on a failed lookup" % (v, b.short.split("::")[-1]), "%s in %s is not conditional on a lookup" % (v, b.short), loc_str(s.span))
+            # ... and the KIND says which store the failed lookup was made in: a name that is missing from the node stores
+            # is NodeNotFound, a pair that is missing from the edge stores is EdgeNotFound.  (A node gets its row in
+            # edges_map with its first edge, not when it is added: a missing row there says nothing about the node.)
+            stores = set()
+            for (t, val, a) in controlling_atoms(fl, bb, direct=True):
+                if isinstance(a, tuple):
+                    continue
+                gsl = fl.slice_local(fl.atom_reads(a), data_only=True)
+                for n_ in gsl:
+                    if n_[0] == "SRC":
+                        f_ = field_of(("P", n_[1], n_[2]))
+                        if f_ in NODE:
+                            stores.add("node")
+                        elif f_ in EDGE:
+                            stores.add("edge")
+                    elif n_[0] == "CALL" and b.blocks[n_[1]].term.callee:
+                        cn_ = b.blocks[n_[1]].term.callee.short.split("::")[-1]
+                        if cn_ in ("has_node", "has_nodes", "get_node", "get_node_index", "get_node_by_index"):
+                            stores.add("node")
+                        elif cn_ in ("get_edge_by_indexes", "get_edges_by_indexes", "get_edge", "get_edges"):
+                            stores.add("edge")
+            if stores:
+                want = "node" if v == "NodeNotFound" else "edge"
+                ctx.require(want in stores, "R-C02-4", "notfound-store|%s|%s|%d" % (b.short, v, m), "%s in %s follows a failed lookup in the %s stores" % (v, b.short.split("::")[-1], want),
+                            "%s in %s is decided by a failed lookup in the %s stores only: %s" % (v, b.short, "/".join(sorted(stores)), "a node has no row in edges_map until it is the first endpoint of an edge, so two existing nodes without an edge between them are reported as NodeNotFound -- the answer contradicts has_node / get_node for the same names" if v == "NodeNotFound" else "a missing NODE is reported as a missing edge"), loc_str(s.span))
     ctx.floor("R-C02-4", "notfound_sites", m, 5)
 
 
@@ -507,3 +532,30 @@ def rule11(ctx, prog, flows):
             ctx.require(bool(dd) or is_set, "R-C02-11", "dedup|%s|%d" % (b.short, n), "%s: the nodes taken from %s pass through %s" % (b.short.split("::")[-1], "/".join(raw), "/".join(dd) or "a set"),
                         "%s returns nodes taken from %s without removing repetitions on this path: the row of a node with an undirected self-loop lists the node twice (and a reciprocal directed pair appears in both rows), so the answer lists a neighbour twice and disagrees with the neighbour sets and with the stored edges" % (b.short, "/".join(raw)), loc_str(site.span))
     ctx.floor("R-C02-11", "raw_row_node_lists", n, 1)
+    # ... and the de-duplication removes REPETITIONS: its "same element" predicate is an equality of one and the same
+    # field of the two neighbours, with positive polarity (`a.node_index != b.node_index` would remove every element that
+    # differs from its predecessor and keep the repetitions)
+    from engines import predicate_true_paths, mapped_closure_of
+
+    for p in sorted(prog.bodies):
+        b = prog.bodies[p]
+        if b.kind == "closure" or not b.short.startswith("graph::query::"):
+            continue
+        fl = flows.of(b)
+        for t in b.calls():
+            if not (t.callee and t.callee.short.split("::")[-1] in ("dedup_by", "unique_by", "dedup_by_key") and len(t.args) >= 2 and t.args[1].place is not None):
+                continue
+            cpath = None
+            for c_ in fl.copies_of(t.args[1].place.local) | {t.args[1].place.local}:
+                if c_ in fl.closure_locals:
+                    cpath = fl.closure_locals[c_]
+            if cpath is None or cpath not in prog.bodies or prog.bodies[cpath].local_ty(0) != "bool":
+                continue
+            cb = prog.bodies[cpath]
+            paths = predicate_true_paths(flows.of(cb), cb)
+            if paths is None:
+                ctx.undecided("R-C02-11", "same-element|" + b.short, "the `same element` predicate of %s in %s is not a conjunction of equalities" % (t.callee.short.split("::")[-1], b.short), loc_str(t.span))
+                continue
+            ok = len(paths) == 1 and len(paths[0]) >= 1 and all(rel == "eq" and pol and len({o.split(".", 1)[-1] for o in ops}) == 1 for (rel, pol, ops) in paths[0])
+            ctx.require(ok, "R-C02-11", "same-element|" + b.short, "the `same element` predicate in %s is an equality of the same field of both elements" % b.short.split("::")[-1],
+                        "the `same element` predicate handed to %s in %s is true under %s: it is not an equality of one field of the two elements, so the de-duplication removes distinct neighbours and keeps repeated ones" % (t.callee.short.split("::")[-1], b.short, [sorted(("%s%s(%s)" % ("" if pol else "!", rel, ",".join(sorted(ops)))) for (rel, pol, ops) in pth) for pth in paths]), loc_str(t.span))
